@@ -54,6 +54,21 @@ async fn post(client: &reqwest::Client, url: String, body: Value) -> (u16, Value
     }
 }
 
+/// A stream that has been idle for a while: every frame its live subscriber holds must be in the log file by now
+/// (polled for up to `patience_ms`, so a slow machine cannot fail it).  Returns (live frames, log frames) at the end of the wait.
+async fn quiet_check(data: &Path, id: &str, sink: &Sink, patience_ms: u64) -> (Vec<Value>, Vec<Value>) {
+    let deadline = std::time::Instant::now() + Duration::from_millis(patience_ms);
+    loop {
+        let live: Vec<Value> = sink.lock().unwrap().clone();
+        let logf = frames_of(data, id);
+        let all_in = live.iter().all(|f| logf.iter().any(|g| g["id"] == f["id"]));
+        if (all_in && !live.is_empty()) || std::time::Instant::now() >= deadline {
+            return (live, logf);
+        }
+        tokio::time::sleep(Duration::from_millis(20)).await;
+    }
+}
+
 async fn wait_for<F: Fn() -> bool>(f: F, ms: u64) -> bool {
     let deadline = std::time::Instant::now() + Duration::from_millis(ms);
     while std::time::Instant::now() < deadline {
@@ -92,6 +107,7 @@ async fn scenario(case: &Value) -> Value {
     subs.insert(thread.clone(), subscribe(&client, format!("{base}/threads/{thread}/events")));
     kinds.insert(thread.clone(), "thread".into());
     let mut notes = Vec::new();
+    let mut quiet: BTreeMap<String, (Vec<Value>, Vec<Value>)> = BTreeMap::new();
     let steps = case["steps"].as_array().cloned().unwrap_or_default();
     for st in steps {
         let op = get_str(&st, "do").unwrap_or("");
@@ -120,6 +136,11 @@ async fn scenario(case: &Value) -> Value {
                 subs.insert(sid.clone(), subscribe(&client, format!("{base}/sessions/{sid}/events")));
                 kinds.insert(sid.clone(), "session".into());
                 let (code, _) = post(&client, format!("{base}/sessions/{sid}/input"), json!({"input": st["input"].to_string()})).await;
+                if let Some(ms) = get_u64(&st, "quiet_after_ms") {
+                    tokio::time::sleep(Duration::from_millis(ms)).await;
+                    let q = quiet_check(&data, &sid, &subs[&sid].0, get_u64(&st, "patience_ms").unwrap_or(2000)).await;
+                    quiet.insert(sid.clone(), q);
+                }
                 let (d, s) = (data.clone(), sid.clone());
                 wait_for(move || frames_of(&d, &s).iter().any(|f| f["type"] == "session_ended"), 30000).await;
                 notes.push(json!({"op": op, "http": code}));
@@ -132,12 +153,22 @@ async fn scenario(case: &Value) -> Value {
                     kinds.insert(tid.clone(), "task".into());
                     if let Some(ms) = get_u64(&st, "cancel_after_ms") {
                         tokio::time::sleep(Duration::from_millis(ms)).await;
+                        if let Some(p) = get_u64(&st, "patience_ms") {
+                            let q = quiet_check(&data, &tid, &subs[&tid].0, p).await;
+                            quiet.insert(tid.clone(), q);
+                        }
                         let _ = post(&client, format!("{base}/tasks/{tid}/cancel"), json!({"reason": "vérif ✓"})).await;
                     }
                     let (d, t) = (data.clone(), tid.clone());
                     wait_for(move || frames_of(&d, &t).iter().any(|f| f["type"] == "tool_task_status" && matches!(f["status"].as_str(), Some("exited") | Some("cancelled") | Some("failed"))), 30000).await;
                 }
                 notes.push(json!({"op": op, "http": code}));
+            }
+            "drop_sidecar" => {
+                // the per-thread sidecar is lost while the store keeps running (the next append re-creates the file)
+                let p = data.join("continuity_streams").join(format!("{thread}.jsonl"));
+                let ok = std::fs::remove_file(&p).is_ok();
+                notes.push(json!({"op": op, "http": if ok { 200 } else { 404 }}));
             }
             "thread_op" => {
                 let path = get_str(&st, "path").unwrap_or("");
@@ -212,22 +243,35 @@ async fn scenario(case: &Value) -> Value {
             _ => None,
         };
         let snapshot = snap_path.and_then(|p| std::fs::read_to_string(p).ok()).and_then(|s| serde_json::from_str::<Value>(&s).ok()).and_then(|v| v.as_array().cloned());
-        streams.insert(id.clone(), json!({"kind": k, "live": live, "late": late_v, "log_raw": of(&log_raw), "log_replayed": of(&log_replayed), "sidecar": sidecar, "snapshot": snapshot}));
+        streams.insert(id.clone(), json!({"kind": k, "live": live, "late": late_v, "log_raw": of(&log_raw), "log_replayed": of(&log_replayed), "sidecar": sidecar, "snapshot": snapshot,
+                                        "quiet_live": quiet.get(id).map(|q| q.0.clone()), "quiet_log": quiet.get(id).map(|q| q.1.clone())}));
     }
     // ---- fault: the last sidecar line of every thread is cut short (a crash after the log flush), then a new
     //      authority is started on the same store and a subscriber reads each thread again
     let mut after_fault = serde_json::Map::new();
-    if case["torn_sidecar"] == json!(true) {
+    let fault_kind = get_str(case, "sidecar_fault").map(str::to_string).or_else(|| if case["torn_sidecar"] == json!(true) { Some("tear_tail".to_string()) } else { None });
+    if let Some(fk) = fault_kind {
         for (id, k) in &kinds {
             if k == "thread" {
                 let p = data.join("continuity_streams").join(format!("{id}.jsonl"));
-                if let Ok(meta) = std::fs::metadata(&p) {
-                    if meta.len() > 40 {
-                        if let Ok(f) = std::fs::OpenOptions::new().write(true).open(&p) {
-                            let _ = f.set_len(meta.len() - 25);
-                        }
-                    }
+                let Ok(bytes) = std::fs::read(&p) else { continue };
+                if bytes.len() <= 40 {
+                    continue;
                 }
+                let lines: Vec<&[u8]> = bytes.split_inclusive(|b| *b == b'\n').collect();
+                let new: Vec<u8> = match fk.as_str() {
+                    // a crash after the log flush: the last line is cut short
+                    "tear_tail" => bytes[..bytes.len() - 25].to_vec(),
+                    // the file lost its first line / a middle line (a damaged or half-rebuilt file)
+                    "drop_head" => lines.iter().skip(1).flat_map(|l| l.to_vec()).collect(),
+                    "drop_middle" if lines.len() >= 3 => lines.iter().enumerate().filter(|(i, _)| *i != lines.len() / 2).flat_map(|(_, l)| l.to_vec()).collect(),
+                    // the last line was written twice (an append retried after a lost acknowledgement)
+                    "dup_tail" => { let mut v = bytes.clone(); v.extend_from_slice(lines[lines.len() - 1]); v }
+                    // only the newest lines are left
+                    "keep_tail" if lines.len() >= 2 => lines[lines.len() - 2..].iter().flat_map(|l| l.to_vec()).collect(),
+                    _ => bytes.clone(),
+                };
+                let _ = std::fs::write(&p, new);
             }
         }
         let server2 = crate::srv::Server::start(data.clone(), ws.clone(), None, false).await;
